@@ -5,22 +5,29 @@ VIOLATION line -- a violation here is a FALSE ALARM of the machinery (brittle co
 usage: tools_benign.py [name-prefix ...]"""
 import json, os, re, shutil, subprocess, sys, tempfile
 ROOT = os.path.dirname(os.path.abspath(__file__))
+VENV_PY = os.path.join(ROOT, ".venv/bin/python")
+REPORT = os.path.join(ROOT, "benign", "report.json")
+BENIGN = os.path.join(ROOT, "benign")
+# the run takes a while: work on a snapshot of the machinery so that edits made meanwhile do not interfere
+SNAP = tempfile.mkdtemp(prefix="pvc_benign_snap_")
+subprocess.run(["rsync", "-a", "--exclude", ".venv", "--exclude", "out", "--exclude", ".git", "--exclude", "mutation", ROOT + "/", SNAP + "/"], check=True)
+ROOT = SNAP
 props = [c["property_id"] for c in json.load(open(os.path.join(ROOT, "MANIFEST.json")))["checks"]]
 rows = []
-for d in sorted(os.listdir(os.path.join(ROOT, "benign"))):
+for d in sorted(os.listdir(BENIGN)):
     if not d.endswith(".diff") or (sys.argv[1:] and not any(d.startswith(a) for a in sys.argv[1:])):
         continue
     tmp = tempfile.mkdtemp(prefix="pvc_benign_")
     try:
         subprocess.run("git -C /repo archive HEAD ptera | tar -x -C " + tmp, shell=True, check=True)  # committed tree: the working tree of /repo may be carrying a seeded patch
-        p = subprocess.run(["patch", "-p1", "-s", "-d", tmp, "-i", os.path.join(ROOT, "benign", d)], capture_output=True, text=True)
+        p = subprocess.run(["patch", "-p1", "-s", "-d", tmp, "-i", os.path.join(BENIGN, d)], capture_output=True, text=True)
         if p.returncode != 0:
             rows.append((d, "does-not-apply", []))
             continue
         bad = []
         for prop in props:
             env = {**os.environ, "PVC_REPO": tmp, "PVC_EVIDENCE_DIR": os.path.join(tmp, "evidence"), "PVC_CANARY": "0", "PTERA_VERIF": "1"}
-            r = subprocess.run([os.path.join(ROOT, ".venv/bin/python"), "-m", "pvc.driver", prop, "quick"], cwd=ROOT, env=env, capture_output=True, text=True, timeout=1200)
+            r = subprocess.run([VENV_PY, "-m", "pvc.driver", prop, "quick"], cwd=ROOT, env=env, capture_output=True, text=True, timeout=1200)
             und = re.search(r"undecided=([1-9]\d*)", r.stdout)
             if r.returncode != 0 or "VIOLATION" in r.stdout:
                 bad.append((prop, r.returncode, [re.sub(r".*replay=\S*/", "", l) for l in r.stdout.splitlines() if l.startswith("VIOLATION")][:4], r.stderr[-300:] if r.returncode not in (0, 1) else ""))
@@ -30,4 +37,5 @@ for d in sorted(os.listdir(os.path.join(ROOT, "benign"))):
         print(rows[-1], flush=True)
     finally:
         shutil.rmtree(tmp, ignore_errors=True)
-json.dump(rows, open(os.path.join(ROOT, "benign", "report.json"), "w"), indent=1)
+json.dump(rows, open(REPORT, "w"), indent=1)
+shutil.rmtree(SNAP, ignore_errors=True)
